@@ -212,6 +212,8 @@ def hex_from_double(value: float | None, factor: int = 1) -> HexStr4:
     result = round(value * factor)
     if not 0 <= result < 2**16:
         raise ValueError(f"Invalid value: {value}, is out of range")
+    if result == 0x7FFF:  # would be decoded as N/A
+        raise ValueError(f"Invalid value: {value}, is not representable (0x7FFF)")
     return f"{result:04X}"
 
 
@@ -400,7 +402,10 @@ def hex_from_temp(value: bool | float | None) -> HexStr4:
     temp = round(value * 100)
     if not -(2**15) <= temp < 2**15:
         raise ValueError(f"Invalid temp: {value} is out of range")
-    return f"{temp if temp >= 0 else temp + 2 ** 16:04X}"
+    result = f"{temp if temp >= 0 else temp + 2 ** 16:04X}"
+    if result in ("31FF", "7EFF", "7FFF"):  # would be decoded as N/A, or False
+        raise ValueError(f"Invalid temp: {value} is not representable (0x{result})")
+    return result
 
 
 ########################################################################################
